@@ -44,7 +44,8 @@ CLAIMED = {
              "anything is constructed, for all other arguments (7 classes + WRITE SAME(16) unless NDOB; ATA by flag sweep); no constructor "
              "of any of the 42 classes returns a command for any of the 96 operation codes without a fixed CDB length. The refusals that go "
              "through the facade and the parameter-list marshallers (PR IN service action, EXTENDED COPY keys/codes, TransportID, nothing "
-             "sent) are checked on the implementation by 240 scenario probes with a recording device on every run.",
+             "sent) are checked on the implementation by 430 scenario probes with a recording device on every run (PR IN with every value 4..39, -40..-1, large, negative large, None, strings, ()); "
+             "the PERSISTENT RESERVE IN method is REGENERATED and must be exactly the chain `if sa == X: ... elif ... else: raise ValueError` over the four service actions (C17_prin_dispatch_is_a_closed_chain).",
         ref="DESIGN.md §4 C17",
         note="As C01. Partial: the facade/marshaller refusals are decided by exhaustive scenario probes of the implementation, not yet by a "
              "theorem about a model (see C13/C05).",
@@ -86,7 +87,8 @@ CLAIMED = {
              "is REGENERATED too and must have exactly the known shape (execute = hand the command to the device once and re-raise; "
              "__enter__/__exit__; blocksize property; no other member, decorator or class-level attribute). Histories of calls on ONE facade "
              "over the real SCSIDevice / ISCSIDevice (stub bindings, scripted answers incl. hidden re-executions) are judged on every run: "
-             "exactly one command per call, T10 opcode whatever was called before, same behaviour as on a brand-new facade.",
+             "exactly one command per call, T10 opcode whatever was called before, same behaviour as on a brand-new facade; the scripted answers include a CHECK CONDITION for which the binding has no sense data "
+             "(whatever the library raises then, the command is not handed over a second time).",
         ref="DESIGN.md §4 C13",
         note="The event-trace semantics of the action language is hand-written (Model/Facade.v) and tied by correspondence; buffer identity "
              "and decode-after-execute are observed on the implementation, not modelled.",
@@ -131,7 +133,9 @@ CLAIMED = {
              "correspondence, and by an implementation run: 700 sequential histories (all ordered class pairs, triples), ~1000 two-thread "
              "schedules under a settrace-controlled line-granular scheduler, input-mutation and determinism probes. The inventory of class SCSICommand (its codec methods must be exactly the text Model/Command.v models, properties only touch their own slot, no other member, decorator "
              "or mutable class-level object) is an obligation of C01, C02 and C09; class-level mutables changed in place through any receiver, overrides of base-class methods and "
-             "memoisation decorators are part of the footprint; every class is also built against itself with other (also optional) argument values and cmd.unmarshall() of every earlier command is observed.",
+             "memoisation decorators are part of the footprint; every class is also built against itself with other (also optional) argument values and cmd.unmarshall() of every earlier command is observed. "
+             "'Equal inputs, equal bytes': no regenerated builder / decoder body changes in place an object borrowed from its caller (x = p[k], x = p.get(..), for x in p[k], what another package function returned for it; "
+             "C09_py_builders_leave_the_callers_objects_alone), and the real constructors are handed every parameter dictionary (byte values as bytearrays) three times.",
         ref="DESIGN.md §4 C09",
         note="Partial: schedules are explored at source-line granularity (the property's); CPython's bytecode-granular preemption and the GIL "
              "are outside the model — with an empty footprint the conclusion does not depend on the granularity. The footprint scan (class "
@@ -146,7 +150,9 @@ CLAIMED = {
              "(over a buffer slice, a caller range or a dict) are checked on every run. Every public decoder is also run on the real code "
              "under a line-count budget linear in the buffer length on empty, truncated, all-zero, all-0xFF, zero-length-field, "
              "huge-length-field and random buffers. For GET LBA STATUS, PERSISTENT RESERVE IN / READ KEYS and REPORT LUNS the REGENERATED decoder bodies themselves are proved total on EVERY byte string under Model/Py.v: "
-             "with fuel len(data)+3 they return a value (no exception, no fuel exhaustion) that is spelled out (C11_py_*_every_input, C11_py_no_divergence). A second, "
+             "with fuel len(data)+3 they return a value (no exception, no fuel exhaustion) that is spelled out (C11_py_*_every_input, C11_py_no_divergence); the same for the two decoders whose loop stride is READ FROM THE BUFFER — "
+             "REPORT PRIORITY (descriptor length field: zero, or past the end), REPORT TARGET PORT GROUPS (two nested loops, the inner one bounded by a count from the buffer and by the bytes that remain; list lengths bounded by the buffer: C11_py_rtpg_linear) "
+             "and READ ELEMENT STATUS (pages x descriptors with strides and stop conditions from the buffer, five conditional parts: returns Ok within 2 len + 4 units of fuel on every byte string, by a generic decreasing-measure rule for while loops). A second, "
              "process-level budget (CPU time per call, batches under a deadline, bisected) covers work inside C code (regular expressions) and nested sense descriptors.",
         ref="DESIGN.md §4 C11",
         note="Trusted: Coq kernel + vm_compute; the loop-skeleton translator (fail-closed: unknown loop shapes are listed and must be empty); "
@@ -219,7 +225,8 @@ CLAIMED = {
              "parameters (both regenerated) agree, and a generic theorem gives the list round trip for every number of descriptors. All 15 "
              "structures plus every TransportID and designator kind are round-tripped through the real parser/builder pairs on every run. Both directions of a list structure over the REGENERATED bodies of builder and decoder (Gen/PyFuncs.v under Model/Py.v): GET LBA STATUS "
              "built from any number of complete valid descriptor dictionaries has the standard layout with an honest PARAMETER DATA LENGTH, and decoding what was built "
-             "returns the dictionaries whole and in order (C06_py_getlbastatus_build, C06_py_getlbastatus_parse_inverts_build; the same for REPORT LUNS, whose builder is proved to follow the order of the caller's list: C06_py_reportluns_*). Rebuilds are also run with the keys of every "
+             "returns the dictionaries whole and in order (C06_py_getlbastatus_build, C06_py_getlbastatus_parse_inverts_build; the same for REPORT LUNS, whose builder is proved to follow the order of the caller's list: C06_py_reportluns_*; "
+             "for REPORT PRIORITY, whose descriptors carry their own length (C06_py_reportpriority_*), and for REPORT TARGET PORT GROUPS, a list of groups each with its own list of ports (C06_py_rtpg_*: any number of groups and ports)). Rebuilds are also run with the keys of every "
              "dictionary reversed / shuffled, with 10..130 list entries, and with UTF-8 names.",
         ref="DESIGN.md §4 C06",
         note="Trusted: Coq kernel + vm_compute; translator; the canonical-response generator tools/spec_resp.py. Partial: how builders and "
@@ -249,7 +256,8 @@ CLAIMED = {
              "scsi_enum_command.py on every run, against a hand-written T10 table (Spec/T10Opcodes.v, Spec/SAM.v); consistency of "
              "names across sets; init_cdb's range table (regenerated from scsi_command.py) equals the SAM group rule for all 256 "
              "operation codes. Finite domains, exhaustive, bounds in the statements. The tables are judged a second time as a caller finds them AFTER the library was used in the process (a facade attached and re-attached to devices of all 32 "
-             "peripheral device types x 5 fillings of the other INQUIRY bytes, every facade method called once).",
+             "peripheral device types x 5 fillings of the other INQUIRY bytes, every facade method called once). A name is looked up as an ordinary attribute of class Enum, whose members are compared as syntax trees with the modelled text on every run "
+             "(C14_lookup_is_the_table: no __getattr__ fallback), and every name some set lists, in every CDB size variant, is looked up in every set that does NOT list it: it must fail or give the T10 value of that name.",
         ref="DESIGN.md §4 C14",
         note="Trusted: Coq kernel + vm_compute; the translator (validated against runtime reflection of the Enum objects on every run); "
              "Spec/T10Opcodes.v and Spec/SAM.v (my transcription of T10's assignments); 8-line hand model of the range-table "
@@ -260,7 +268,8 @@ CLAIMED = {
              "operations the Enum metaclass answers exactly like an ordinary insertion-ordered dictionary (simulation by induction over the "
              "operation list), under a decidable condition on the `keys` filter REGENERATED from enum.py (it lists a name iff it is not a "
              "dunder name, for every kind of value). The operations are a hand model tied by a correspondence run over 3 live enumerations "
-             "with ints, strings, dicts, OpCode objects, functions, classes and bound methods; the implementation is also compared with a real dict.",
+             "with ints, strings, dicts, OpCode objects, functions, classes and bound methods; the implementation is also compared with a real dict. class Enum has exactly the members the model was written for, each with exactly that text "
+             "(compared as syntax trees on every run, C18_enum_class_is_the_modelled_text).",
         ref="DESIGN.md §4 C18",
         note="Trusted: Coq kernel; translator for the filter expression; hand model of __new__/add/remove/__getitem__ (correspondence); "
              "names beginning with '__' and the metaclass's own attribute names are outside the quantifier (names_ok, stated).",
